@@ -224,7 +224,9 @@ func main() {
 							e2 := ws.CheckCloseFrameData(code, reason)
 							e3 := ws.CheckCloseFrameData(code, string(append([]byte{}, second...)))
 							want := utf8.ValidString(second)
-							if (e2 == nil) != want || (e3 == nil) != want {
+							// (in the copying build of the library the view does not follow the buffer:
+							// the in-place verdict is about whatever the string holds now)
+							if (e2 == nil) != utf8.ValidString(reason) || (e3 == nil) != want {
 								return explore.Failf("reason-verdict-depends-on-earlier-check", "buffer held %q (checked: %v), now holds %q: in place %v, fresh copy %v, want valid=%v", first, e1, second, e2, e3, want)
 							}
 						}
